@@ -356,7 +356,8 @@ func (c *Conn) handleMail(arg string) {
 	for key, value := range args {
 		switch key {
 		case "SIZE":
-			size, err := strconv.ParseUint(value, 10, 32)
+			// RFC 1870 allows 20 digits; what fits MailOptions.Size is accepted.
+			size, err := strconv.ParseUint(value, 10, 63)
 			if err != nil {
 				c.writeResponse(501, EnhancedCode{5, 5, 4}, "Unable to parse SIZE as an integer")
 				return
@@ -379,7 +380,9 @@ func (c *Conn) handleMail(arg string) {
 			}
 			opts.UTF8 = true
 		case "REQUIRETLS":
-			if !c.server.EnableREQUIRETLS {
+			// REQUIRETLS is only offered, and only valid, on a connection
+			// protected by TLS (RFC 8689 section 2).
+			if _, isTLS := c.TLSConnectionState(); !c.server.EnableREQUIRETLS || !isTLS {
 				c.writeResponse(504, EnhancedCode{5, 5, 4}, "REQUIRETLS is not implemented")
 				return
 			}
